@@ -43,6 +43,30 @@ def jStore (s : Store String) : Json :=
   Json.mkObj [("shape", jNats s.scores.shape), ("offset", jNats s.offset), ("scores", jInts s.scores.toList),
               ("rots", jInts s.rots.toList), ("table", jTable s.table)]
 
+/-- a matrix as rows of words (hex of one element each) -/
+def getMat (j : Json) (k : String) : Except String (List (List String)) := do
+  (← getArr j k).toList.mapM (fun row => do
+    (← row.getArr?).toList.mapM (fun w => w.getStr?))
+
+def getSubsMat (sh : List Nat) (j : Json) : Except String (List (Arr Int × List (List String))) := do
+  let a ← j.getArr?
+  a.toList.mapM (fun x => do
+    let arr ← getArrInt sh x "d"
+    let m ← getMat x "m"
+    pure (arr, m))
+
+def jMat (m : List (List String)) : Json := jList (m.map (fun row => jList (row.map jStr)))
+
+def sameFile (a b : Arr Int) : Bool := a.shape == b.shape && a.toList == b.toList
+
+def getSubsAny (j : Json) : Except String (List (Arr Int × String)) := do
+  let a ← j.getArr?
+  a.toList.mapM (fun x => do
+    let sh ← getNatList x "shape"
+    let arr ← getArrInt sh x "d"
+    let k ← getStr x "k"
+    pure (arr, k))
+
 def handle (op : String) (a : Json) : Option R :=
   match op with
   | "c04.run" => some do
@@ -74,6 +98,75 @@ def handle (op : String) (a : Json) : Option R :=
       let sched ← getNatList a "sched"
       let sys := runSched lock (sysInit sh thr work) sched
       pure (Json.mkObj [("state", jState sys.shared), ("done", jBool (allDone sys work.length))])
+  | "c04.runNoLock" => some do
+      let sh ← getNatList a "shape"
+      let thr ← getInt a "thr"
+      let subs ← getSubs sh (← a.getObjVal? "subs")
+      pure (jState (runNoLock sh thr subs))
+  | "c04.runInv" => some do
+      let sh ← getNatList a "shape"
+      let thr ← getInt a "thr"
+      let subs ← getSubs sh (← a.getObjVal? "subs")
+      pure (jStore (iterInv (runInv sh thr subs) (List.replicate sh.length 0)))
+  | "c04.runMat" => some do
+      let sh ← getNatList a "shape"
+      let thr ← getInt a "thr"
+      let n ← getNat a "n"
+      let subs ← getSubsMat sh (← a.getObjVal? "subs")
+      let s := run sh thr (subs.map (fun am => (am.1, matKey am.2)))
+      let dec := s.rots.toList.map (fun r => match decodeRot n s.table r with
+        | some m => jMat m
+        | none => Json.null)
+      pure (Json.mkObj [("scores", jInts s.scores.toList), ("rots", jInts s.rots.toList),
+        ("table", jList (s.table.map (fun kv => jList [jStr (String.join kv.1), jNat kv.2]))),
+        ("decoded", jList dec)])
+  | "c04.mergeMem" => some do
+      let thr ← getInt a "thr"
+      let ps ← (← getArr a "stores").toList.mapM (fun x => if x.isNull then pure none else do pure (some (← getStore x)))
+      let ss := ps.filterMap id
+      match ss with
+      | s :: _ => if ss.any (fun t => t.offset.length ≠ s.offset.length) then throw "BadArg:ndim"
+      | [] => pure ()
+      -- every given store is written to two files first (`array_to_memmap`), in list order
+      let built := ps.foldl (fun (acc : FS × List (Option (MStore String))) p =>
+        match p with
+        | none => (acc.1, acc.2 ++ [none])
+        | some st =>
+          let c := storeToFiles acc.1 st
+          (c.1, acc.2 ++ [some c.2])) (([] : FS), [])
+      let fs := built.1
+      let r := mergeOptMem thr fs built.2
+      let same := (List.range fs.length).all (fun q => sameFile (r.1.read q) (fs.read q))
+      pure (Json.mkObj [("result", match r.2 with
+          | some m => jStore (m.load r.1)
+          | none => Json.str "none"),
+        ("paths", match r.2 with
+          | some m => jNats [m.scores, m.rots]
+          | none => jNats []),
+        ("files_before", jNat fs.length), ("files_after", jNat r.1.length), ("inputs_unchanged", jBool same)])
+  | "c04.memmapHandler" => some do
+      let fsh ← getNatList a "shape"
+      let starts ← getNatList a "starts"
+      let files ← (← getArr a "files").toList.mapM (fun x => do
+        let d ← intList (← x.getArr?)
+        if d.length ≠ prodL fsh then throw "BadArg:file"
+        pure (⟨fsh, d.toArray⟩ : Arr Int))
+      let paths ← getTable a "paths"
+      let subs ← getSubsAny (← a.getObjVal? "subs")
+      match memmapHandlerRun paths starts files subs with
+      | some fs => pure (jList (fs.map (fun f => jInts f.toList)))
+      | none => pure (Json.str "KeyError")
+  | "c04.once" => some do
+      -- one analyzer of the merged volume fed every submission of every tile (embedded, threshold outside the box)
+      let thr ← getInt a "thr"
+      let tiles ← (← getArr a "tiles").toList.mapM (fun x => do
+        let sh ← getNatList x "shape"
+        let off ← getNatList x "offset"
+        if off.length ≠ sh.length then throw "BadArg:offset"
+        let subs ← getSubs sh (← x.getObjVal? "subs")
+        pure (⟨off, sh, subs⟩ : Tile String))
+      let out := outShape (tiles.map (tileStore thr))
+      pure (jState (run out thr (bigHist thr out tiles)))
   | "c04.specMax" => some do
       let thr ← getInt a "thr"
       let vals ← getIntListList a "vals"
